@@ -19,5 +19,21 @@ def fill(register, pending):
              'single-process fork-per-run isolation',
              'deterministic simulation: seeded scenario generation + exhaustive k-th-callback fault injection with refcount-ledger oracle',
              'DESIGN.md section 4 (C15)', 'checks/c15_cbfault.py')
-    for pid in ('C11', 'C12', 'C13', 'C14', 'C16', 'C17', 'C18'):
+    register('C16', 'fault_enumeration',
+             'for seed-sampled (traversal, tree) pairs every callback index k is combined with every interference in '
+             '{delete-front, delete-back, clear, append, replace} x {containers on/near the traversal path} plus re-entry and gc, '
+             'on the plain-semantics build (fatal signals) and on an ASan+UBSan build (reports); deterministic sweeps of nesting '
+             'depth L-1..L+2 for every node kind (+ self-reference) and seeded argument-confusion calls over every entry point',
+             'memory safety is judged by process survival and sanitizer silence; ASan main-thread stack limit raised to 512 MiB '
+             'because instrumented frames are ~10x larger; GIL build only',
+             'deterministic simulation: exhaustive k-th-callback re-entrant mutation / re-entry injection under sanitizers, fork-per-run crash isolation',
+             'DESIGN.md section 4 (C16)', 'checks/c16_reentry.py')
+    register('C14', 'exploration',
+             'seeded histories of create / mutate-source / mutate-handout / operand (incl. failing ops) / registry change / drop / gc / '
+             'cycle steps over a pool of live treespecs; after every step every live treespec is re-observed (repr, hash, paths, '
+             'accessors, entries, children, unflatten incl. which registration builds each node) and every argument compared with its clone',
+             'observation covers the public inspection surface only; sampled histories (not exhaustive); GIL build only',
+             'deterministic simulation: seeded stateful histories with before/after observation snapshots and weakref/gc oracles',
+             'DESIGN.md section 4 (C14)', 'checks/c14_alias.py')
+    for pid in ('C11', 'C12', 'C13', 'C17', 'C18'):
         pending[pid] = 'simulation check designed (DESIGN.md section 4) but not yet built at this commit; not claimed until its engine is committed'
